@@ -146,3 +146,5 @@ package reader
 //@   requires len(ns) == 0 || ns[0] == nil || validEnvVal(ns[0])
 //@   panics never
 //@   at "cursor = NewCursorFile(matches[1])" assume len(matches) == 2
+//@   at "if tokenReader.position != len(tokenReader.tokens) {" assert cls(err) == 0 && rfC(tokenReader.tokens, 0) == 0 && tokenReader.position == rfP(tokenReader.tokens, 0) @C16
+//@   at "return nil, err"#2 assert cls(err) == rfC(tokenReader.tokens, 0) && cls(err) != 0 @C16
